@@ -56,7 +56,7 @@ func verifC02noRescale(alpha, x float64) {
 func VerifC02_LdIndepF() {
 	maxN := verifParam("reln", 3)
 	routine := verifChoose("routine", 0, 6)
-	extra := verifChoose("extra", 1, 2)
+	extra := verifChoose("extra", verifParam("relextramin", 1), 2) // ld = cols + extra
 	impl := Implementation{}
 	switch routine {
 	case 0: // Dgetrf
